@@ -47,11 +47,11 @@ def failed_keys(prop, repo, base=None, changed=None):
     fk = {o['key']: o for o in rep.failed()}
     # the driver's safety net: pipeline rules that fail while an anchor function contains a construct the analysis does not look
     # into are 'undecided' (exit 2), not violations
-    if any(o['rule'] in core.PIPE_RULES for o in fk.values()):
+    if any(o['rule'] in core.PIPE_RULES and not o.get('positive') for o in fk.values()):
         opq = core.opaque_constructs(F)
         if opq:
             for o in fk.values():
-                if o['rule'] in core.PIPE_RULES:
+                if o['rule'] in core.PIPE_RULES and not o.get('positive'):
                     o['undecided'] = opq[0]
     return fk
 
